@@ -20,6 +20,7 @@ import (
 	"os"
 	"os/exec"
 	"path/filepath"
+	"strings"
 	"time"
 
 	"github.com/invopop/gobl"
@@ -118,6 +119,11 @@ func verRun(maxMods int, goblBin, bulkBin string, cliEvery int, out string, work
 		}
 		pubs[k+"-nokid"] = p
 	}
+	// two keys that never sign anything
+	for _, k := range []string{"k3", "k4"} {
+		pubs[k] = dsig.NewES256Key().Public()
+	}
+	keyLists := [][]string{{"k2", "k3"}, {"k3", "k4"}, {"k3", "k1"}, {"k1", "k2"}, {"k2", "k1"}, {"k3", "k4", "k2"}, {"k1-nokid", "k3"}, {"k3", "k2-nokid"}, {"k3", "k3"}}
 	var cases []verCase
 	trid := 0
 	for _, setup := range verSetups {
@@ -156,6 +162,29 @@ func verRun(maxMods int, goblBin, bulkBin string, cliEvery int, out string, work
 					w.Emit(envEvent{Tr: trid, N: n, Op: "Verify", A: "lib", K: []string{key}, Out: lib, St: st, Base: "inv", B: name})
 					cases = append(cases, verCase{trid: trid, n: n, st: st, data: data, key: key, nokid: nokid})
 				}
+			}
+			// several keys offered at once: every signature must have been made by one of them
+			for _, kl := range keyLists {
+				var ks []*dsig.PublicKey
+				var abs []string
+				for _, k := range kl {
+					ks = append(ks, pubs[k])
+					abs = append(abs, strings.TrimSuffix(k, "-nokid"))
+				}
+				lib := func() (res string) {
+					defer func() {
+						if p := recover(); p != nil {
+							res = fmt.Sprintf("panic:%v", p)
+						}
+					}()
+					e2 := new(gobl.Envelope)
+					if err := json.Unmarshal(data, e2); err != nil {
+						return "error:parse"
+					}
+					return outcome(e2.Verify(ks...))
+				}()
+				n++
+				w.Emit(envEvent{Tr: trid, N: n, Op: "Verify", A: "lib", K: abs, Out: lib, St: st, Base: "inv", B: strings.Join(kl, "+")})
 			}
 		}
 	}
